@@ -225,12 +225,19 @@ func c14InAck(g c14G) int {
 						if ln < len(src) {
 							next = src[ln]
 						}
+						// the main select is the one that has the PauseCh arm
+						mainSel := false
+						for k := ln; k < ln+6 && k < len(src); k++ {
+							if strings.Contains(src[k], "<-controlChans.PauseCh") {
+								mainSel = true
+							}
+						}
 						switch {
 						case strings.Contains(here, "ResumeCh"):
 							res = 1
 						case strings.Contains(here, "select") && strings.Contains(next, "ResumeCh"):
 							res = 1
-						case strings.Contains(here, "select"):
+						case strings.Contains(here, "select") && mainSel:
 							res = 0
 						}
 					}
